@@ -63,6 +63,10 @@ CHECKS = {
  "C17": (True, "model_checking", "exhaustive product over genesis list contents + explicit-state BFS with export/import differential",
          "Every sequence (length <=3) over colliding entries in each keyed list (pairs of lists in thorough) x optional fields x roles: duplicates must be rejected, accepted states must round-trip as multisets; "
          "in every state of a BFS over all 25 transaction types, init(export(s)) into an empty chain must reproduce the raw module store key for key. One known finding (pending owner has no genesis field).", "5 C17", ""),
+ "C18": (True, "exploration", "exhaustive enumeration of transaction-granular interleavings of several instances vs solo reference runs + separate free-running -race pass",
+         "All interleavings (630 quick / 16800 thorough, x separate and shared keeper) of three colliding histories and a query-only instance: every instance's root hash, responses, events and errors must equal its solo run; "
+         "repeated and after-unrelated-history replays in one process; the same bodies run free on 16 goroutines under the race detector.", "5 C18",
+         "Map-iteration/time/rand nondeterminism is covered only by repeated runs (randomised differential) and an informational AST scan; races wholly inside dependencies are counted, not reported."),
  "C19": (True, "model_checking", "per-registry BFS to closure + combined BFS, every query compared with reference maps after every transition",
          "All contents of each registry over small colliding key universes are reached by real transactions; after every transition every single-item query for every key, every list query for every page size in key and offset mode with totals, and all scalar queries are compared with reference maps.", "5 C19", ""),
  "C20": (True, "model_checking", "exhaustive product of per-field nasty domains per message type, decoded from wire bytes, under recover()",
